@@ -92,6 +92,10 @@ func reopenOnFS(files map[string][]byte, name string, universe int, segver uint3
 			return reopenFSResult{}, "setup: " + err.Error()
 		}
 	}
+	// a writer that died left its pid file behind (only its lock on it went away with the process)
+	if err := os.WriteFile(filepath.Join(dir, "bluge.pid"), []byte("4194000\n"), 0o644); err != nil {
+		return reopenFSResult{}, "setup: " + err.Error()
+	}
 	cmd := exec.Command(os.Args[0], "reopen-fs", "-out", dir, strconv.Itoa(universe), strconv.Itoa(int(segver)))
 	cmd.Env = append(os.Environ(), "GOMEMLIMIT=1500MiB")
 	var out strings.Builder
